@@ -6,7 +6,9 @@ ROLES_PLAIN = [':ARG0', ':ARG1', ':ARG2', ':mod', ':domain', ':op1', ':op2', ':o
                ':prep-on-behalf-of', ':time', ':location', ':poss', ':\u00e9t\u00e9', ':r0', ':k',
                # bases whose inversion (':consist-of', ':x-of', ':u-of' ...) some models define as a
                # role of its own: usable only under the models that do not (R-base)
-               ':consist', ':prep-on-behalf', ':x', ':u']
+               ':consist', ':prep-on-behalf', ':x', ':u',
+               # roles ending in -of that some tables define, literally or by a pattern
+               ':x-of', ':u-of', ':w-of', ':y-z-of', ':prep-out-of']
 SYMS = ['-', '+', 'foo', 'bar', '7', '-1.5', '0', '0.0', '1e3', 'x', 'imperative', 'A',
         'b2', '\u03b5\u03c0', 'a.b', 'c,d', '^', "it's", '\u00a0', 'x\u2028y', '00', 'x\u3000y',
         '\u0085', 'p#q', 'mi\ufeffkh', 'z\u200bw']
@@ -166,6 +168,19 @@ def from_json(j):
     if isinstance(j, list) and len(j) == 2 and isinstance(j[1], list):
         return (j[0], [(r, from_json(t)) for r, t in j[1]])
     return j
+
+
+def listify(node):
+    """the same tree with list nodes (the shape a tree has after a JSON round trip)"""
+    if isinstance(node, tuple) and len(node) == 2 and isinstance(node[1], list):
+        return [node[0], [(r, listify(t)) for r, t in node[1]]]
+    return node
+
+
+def tuplify(node):
+    if isinstance(node, (list, tuple)) and len(node) == 2 and isinstance(node[1], list):
+        return (node[0], [(r, tuplify(t)) for r, t in node[1]])
+    return node
 
 
 def nodes(node, acc=None):
